@@ -13,7 +13,7 @@ import json
 
 from .. import model, observe, spec as specmod
 from ..kernel import call, exc_site
-from .c01 import tol_for
+from .c01 import model_tol, tol_for
 from .pool import FACTORS_ODD, FACTORS_POS, PoolScenario, branch_shortcuts
 
 
@@ -80,7 +80,7 @@ class C08(PoolScenario):
         mod = model.model_doc(sp, [(w.records[i], wt) for i, wt in m["cover"]])
         if m.get("named_lost"):
             pass
-        d = observe.doc_diff(doc, mod, tol_for(w.records, len(m["cover"]) + 4 * si + 8))
+        d = observe.doc_diff(doc, mod, model_tol(w, tol_for(w.records, len(m["cover"]) + 4 * si + 8)))
         if d is not None:
             raise self.violation(d[1], what, "content:%s" % d[2],
                                  "after %s object %d differs from the model of its weighted multiset at %s (%s.%s)" % (
